@@ -759,6 +759,7 @@ class VLE(Equilibrium, phases='lg'):
                     l = x_dew * F_mol * (1. - V)
                     mask = l > mol 
                     l[mask] = mol[mask]
+                    l[l < 0.] = 0. # The dew point may return negative liquid fractions
                     v = mol - l
                     P = P_dew
                 else:
@@ -952,6 +953,7 @@ class VLE(Equilibrium, phases='lg'):
                     l = x_dew * F_mol * (1. - V)
                     mask = l > mol 
                     l[mask] = mol[mask]
+                    l[l < 0.] = 0. # The dew point may return negative liquid fractions
                     v = mol - l
                     T = T_dew
                 else:
